@@ -13,7 +13,8 @@
 (* final state equals the real projection.  Error replies are always       *)
 (* allowed to be no-ops (a request that observed another one's             *)
 (* intermediate state may be refused), so a correct implementation is      *)
-(* never rejected because of the spec's coarser atomicity.                 *)
+(* never rejected because of the spec's coarser atomicity.  A melt that    *)
+(* errs after its pay call may also count as having taken effect (Lin).    *)
 (*                                                                         *)
 (* Many executions are concatenated: GiveUp may skip to the next init at   *)
 (* any time; reaching the end of execution k without having given up sets  *)
@@ -74,8 +75,17 @@ Lin ==
        /\ \A j \in Block(l) : Trace[j].t < Trace[i].c => j \in lin
        /\ LET e == Trace[i]
               j == Judge(S, e)
+              \* a melt that is answered with an error after it has asked the backend to pay may have taken effect all the
+              \* same: a concurrent poll of its quote settles it first and the melt's own settlement then fails on the
+              \* storage key.  What MintAPI allows for an accepted melt is allowed for it too.
+              late == IF e.ev = "melt" /\ ~e.r.ok /\ ~e.r.panic /\ e.a.q \in DOMAIN S.lq /\ MeltCauses(S, e.a) = {}
+                         /\ \E k \in DOMAIN e.a.ln : e.a.ln[k].name \in {"SendPayment", "PayPartialAmount"}
+                      THEN MeltOutcomes(S, e.a) ELSE {}
+              \* ... and if the backend reported to that melt that the payment succeeded, money has left the mint: the melt cannot
+              \* be explained as a request that did nothing (its inputs must have been its to spend at some point)
+              paid == e.ev = "melt" /\ ~e.r.ok /\ ~e.r.panic /\ MeltHow(e.a.ln) = "success"
           IN /\ Hard(j.tags) = {}
-             /\ S' \in j.allowed
+             /\ S' \in (IF paid THEN late ELSE j.allowed \cup late)
        /\ lin' = lin \cup {i}
   /\ UNCHANGED <<l, gaveUp, ex>>
 
